@@ -20,7 +20,7 @@ THEOREMS = [
     (NS + "C09_build_total", "full"),
 ]
 # secondary tie (DESIGN 4.2): kernels regenerated from the source on every run, proved equal to the model (Props/Equiv<Group>.lean)
-EQUIV = {"Header": ["Mpgs.Equiv.gen_header_to_bytes", "Mpgs.Equiv.gen_total_size"], "Size": ["Mpgs.Equiv.gen_overhead", "Mpgs.Equiv.gen_setMTU"]}
+EQUIV = {"Header": ["Mpgs.Equiv.gen_header_to_bytes", "Mpgs.Equiv.gen_total_size", "Mpgs.Equiv.gen_to_bytes_seals", "Mpgs.Equiv.gen_from_bytes_opens"], "Size": ["Mpgs.Equiv.gen_overhead", "Mpgs.Equiv.gen_setMTU"]}
 ASSUMPTIONS = [
     "AES-GCM appends a 16-byte tag and opens what it sealed (explicit hypotheses of the encrypted-form theorems)",
     "the decoded header's isServer flag denotes the receiving side (as in PacketHeader.from_bytes); all other fields round-trip",
